@@ -3,6 +3,7 @@ package main
 import (
 	"context"
 	"fmt"
+	"github.com/lightningnetwork/lnd/lnrpc/chainrpc"
 	"time"
 
 	"github.com/btcsuite/btcd/chaincfg/chainhash"
@@ -225,6 +226,42 @@ func init() {
 				if depth >= int64(csv) && csvCbs == 0 {
 					res.addFinding("C20/electrum/csv-not-reported", fmt.Sprintf("CSV maturity not reported at depth %d >= %d", depth, csv), in)
 				}
+			}
+		}
+		// (3) the REAL LND watcher over scripted GetInfo / chain-notifier streams: lnd reports the confirmation with
+		// its block height; the taker's height hint may lie far above it (confirmed before the taker started to look)
+		for i := 0; i < n/4+20; i++ {
+			rig := newLndRig()
+			confH := uint32(r.pickU64([]uint64{800000, 100, 4294966000}))
+			cur := uint32(int64(confH) + r.pickI64([]int64{0, 1, 2, 3, 10, 400, 502, 503, 504, 600, 903, 1500}))
+			hint := uint32(int64(confH) + r.pickI64([]int64{0, 0, 1, 3, 50, 400, 600, 900}))
+			rig.ln.height = cur
+			rig.w.AddWaitForConfirmationTx("swap", lndTxid, 0, hint, 504, nil)
+			rig.cn.mu.Lock()
+			cs := rig.cn.confs[0]
+			rig.cn.mu.Unlock()
+			cs.ch <- &chainrpc.ConfEvent{Event: &chainrpc.ConfEvent_Conf{Conf: &chainrpc.ConfDetails{BlockHeight: confH, RawTx: []byte{1, 2, 3}}}}
+			for k := 0; k < 400; k++ {
+				if a, _ := rig.w.VerifWatchers("swap"); !a {
+					break
+				}
+				time.Sleep(250 * time.Microsecond)
+			}
+			l := rig.wait(0)
+			res.Evaluations++
+			res.Distinct++
+			depth := int64(cur) - int64(confH) + 1
+			in := map[string]interface{}{"backend": "lnd", "confirmation_height": confH, "tip": cur, "height_hint": hint}
+			if len(l) > 0 {
+				res.Histogram["lnd: "+l[0]]++
+			}
+			switch {
+			case len(l) > 1:
+				res.addFinding("C20/lnd/reported-twice", "more than one confirmation callback for one registration", in)
+			case len(l) == 1 && l[0] == "confirmed" && depth >= int64(onchain.BitcoinCsvSafetyLimit):
+				res.addFinding("C20/lnd/confirmed-after-window", fmt.Sprintf("confirmed reported for an output already %d blocks deep (limit %d): the maker's CSV refund is closer than the payment needs", depth, onchain.BitcoinCsvSafetyLimit), in)
+			case len(l) == 1 && l[0] == "failed" && depth < int64(onchain.BitcoinCsvSafetyLimit) && depth >= 1:
+				res.addFinding("C20/lnd/failed-inside-window", "failure reported although the output is less than half the CSV deep", in)
 			}
 		}
 	}
